@@ -87,3 +87,50 @@ func vh_C03_L2_arbitrary_packet_any_state() {
 	vassert(vLocksFree(a, held), "no lock is left held by the handlers")
 	vcover("end")
 }
+
+// C03.L4: forward-TSN sanity. FORWARD-TSN / I-FORWARD-TSN with a symbolic new cumulative
+// TSN and one stream entry (symbolic identifier and sequence) against an association that
+// holds one complete, unread message; the accept backlog may be full. No panic; a
+// forward-TSN at or behind the cumulative point changes nothing but requests an
+// immediate SACK; otherwise the cumulative point becomes exactly the new value; the
+// complete message stays readable.
+func vh_C03_L4_forward_tsn_sanity() {
+	il := vPick(2) == 1
+	a, _ := vNewAssocOpts(vAssocOpts{interleaving: il})
+	a.useForwardTSN, a.useIForwardTSN = !il, il
+	cum := a.peerLastTSN()
+	vassert(vDeliver(a, vDataChunk(a, cum+1, 4, false, 2)) == nil, "inbound data")
+	cum = a.peerLastTSN()
+	held := a.streams[4]
+	if vPick(2) == 1 {
+		for len(a.acceptCh) < cap(a.acceptCh) { // the application is not accepting streams
+			a.acceptCh <- held
+		}
+	}
+	newCum := nondetU32()
+	vassume(newCum-cum != 1<<31)
+	si := nondetU16()
+	var c chunk
+	if il {
+		c = &chunkIForwardTSN{newCumulativeTSN: newCum, streams: []chunkIForwardTSNStream{{identifier: si, unordered: nondetBool(), messageIdentifier: nondetU32()}}}
+	} else {
+		c = &chunkForwardTSN{newCumulativeTSN: newCum, streams: []chunkForwardTSNStream{{identifier: si, sequence: nondetU16()}}}
+	}
+	a.ackState = ackStateIdle
+	vassert(vDeliver(a, c) == nil, "forward-TSN is never fatal")
+	behind := !vBefore(cum, newCum)
+	if behind {
+		vassert(a.peerLastTSN() == cum, "a forward-TSN at or behind the cumulative point does not move it")
+		vassert(a.ackState == ackStateImmediate, "but is answered with an immediate SACK")
+	} else {
+		vassert(a.peerLastTSN() == newCum, "the cumulative point becomes the new cumulative TSN")
+	}
+	vassert(!a.willSendAbort, "no ABORT for a well-formed forward-TSN of the negotiated kind")
+	if si != 4 {
+		vassert(held.getNumBytesInReassemblyQueue() == 2 && held.reassemblyQueue.isReadable(), "a complete message on another stream stays readable")
+	} else {
+		vassert(held.getNumBytesInReassemblyQueue() == 2, "a complete message is not discarded by a skip")
+	}
+	vassert(vLocksFree(a, held), "no lock is left held")
+	vcover("end")
+}
